@@ -394,8 +394,9 @@ theorem slow_noop (s : State) (l : Local) (hp : l.phase ≠ .compiled) (ha : l.p
 /-! ### step classes and the system invariant -/
 
 theorem localInv_init (compile : Nat → Option Nat) (build : Nat → Nat) : LocalInv compile build {} := by
-  refine ⟨rfl, by decide, by decide, ?_, ?_, ?_⟩
+  refine ⟨rfl, by decide, by decide, ?_, ?_, ?_, ?_⟩
   · intro h; cases h
+  · intro e he; cases he
   · intro e he; cases he
   · intro e he; cases he
 
@@ -417,18 +418,27 @@ theorem sys_step_inv (compile : Nat → Option Nat) (build : Nat → Nat) (size 
     (f : St) (hf : SysStep compile build f) (s : State) (l : Local)
     (hI : CacheInv compile size s.cache) (hJ : LocalInv compile build l) :
     CacheInv compile size (f s l).1.cache ∧ LocalInv compile build (f s l).2 := by
-  obtain ⟨hd, ha, he, hc, hg, hl⟩ := hJ
+  obtain ⟨hd, ha, he, hc, hg, hl, hr⟩ := hJ
   cases hf with
-  | setTable v => rw [tblSet, alive_eq _ _ _ hd]; exact ⟨hI, hd, ha, he, hc, hg, hl⟩
+  | setTable v => rw [tblSet, alive_eq _ _ _ hd]; exact ⟨hI, hd, ha, he, hc, hg, hl, hr⟩
   | lookup h =>
     cases h with
-    | snap => rw [tblSnap, alive_eq _ _ _ hd]; exact ⟨hI, hd, ha, he, hc, hg, hl⟩
+    | snap => rw [tblSnap, alive_eq _ _ _ hd]; exact ⟨hI, hd, ha, he, hc, hg, hl, hr⟩
     | pick N hN =>
       rw [rrFetchAdd_eq N hN s l hd]
-      exact ⟨hI, hd, ha, he, hc, hg, hl⟩
+      exact ⟨hI, hd, ha, he, hc, hg, hl, hr⟩
+    | rnd N hN =>
+      have hN' : N ≠ 0 := by omega
+      rw [rndPick, alive_eq _ _ _ hd]
+      simp only [hN', ↓reduceIte]
+      refine ⟨hI, hd, ha, he, hc, hg, hl, ?_⟩
+      intro e he'
+      rcases List.mem_append.mp he' with h1 | h1
+      · exact hr e h1
+      · simp at h1; subst h1; exact Nat.mod_lt _ hN
     | redirect r =>
       rw [rdPure, alive_eq _ _ _ hd]
-      refine ⟨hI, hd, ha, he, hc, hg, ?_⟩
+      refine ⟨hI, hd, ha, he, hc, hg, ?_, hr⟩
       intro e he'
       rcases List.mem_append.mp he' with h1 | h1
       · exact hl e h1
@@ -438,12 +448,12 @@ theorem sys_step_inv (compile : Nat → Option Nat) (build : Nat → Nat) (size 
       cases hm : mLoad p s.cache.m with
       | none =>
         dsimp only
-        refine ⟨hI, hd, by simp, by simp, by simp, hg, hl⟩
+        refine ⟨hI, hd, by simp, by simp, by simp, hg, hl, hr⟩
       | some g =>
         dsimp only
         have hcg : compile p = some g := hI.2.2.2.2.2.2 (p, g) (mLoad_some_mem p g _ hm)
         refine ⟨hI, by simp [finishGet, hd, Res.isPanic], by simp [finishGet], by simp [finishGet],
-          by simp [finishGet], ?_, hl⟩
+          by simp [finishGet], ?_, hl, hr⟩
         intro e he'
         simp only [finishGet] at he'
         rcases List.mem_append.mp he' with h1 | h1
@@ -457,7 +467,7 @@ theorem sys_step_inv (compile : Nat → Option Nat) (build : Nat → Nat) (size 
         | none =>
           dsimp only
           refine ⟨hI, by simp [finishGet, hd, Res.isPanic], by simp [finishGet], by simp [finishGet],
-            by simp [finishGet], ?_, hl⟩
+            by simp [finishGet], ?_, hl, hr⟩
           intro e he'
           simp only [finishGet] at he'
           rcases List.mem_append.mp he' with h1 | h1
@@ -465,9 +475,9 @@ theorem sys_step_inv (compile : Nat → Option Nat) (build : Nat → Nat) (size 
           · simp at h1; subst h1; simp [getSpec, hcm]
         | some g =>
           dsimp only
-          exact ⟨hI, hd, by simp, by simp, fun _ => hcm, hg, hl⟩
+          exact ⟨hI, hd, by simp, by simp, fun _ => hcm, hg, hl, hr⟩
       · simp only [hp, ↓reduceIte]
-        exact ⟨hI, hd, ha, he, hc, hg, hl⟩
+        exact ⟨hI, hd, ha, he, hc, hg, hl, hr⟩
     | slow =>
       by_cases hp : l.phase = .compiled
       · have hcg := hc hp
@@ -485,13 +495,13 @@ theorem sys_step_inv (compile : Nat → Option Nat) (build : Nat → Nat) (size 
           have : g = l.glb := by rw [hcg] at hcg'; exact (Option.some.inj hcg').symm
           subst this
           exact ⟨hI, by simp [finishGet, hd, Res.isPanic], by simp [finishGet], by simp [finishGet],
-            by simp [finishGet], hgets l rfl rfl, hl⟩
+            by simp [finishGet], hgets l rfl rfl, hl, hr⟩
         | none =>
           by_cases hn : s.cache.n < s.cache.l.length
           · rw [slow_append s l hd hp hm hn]
             exact ⟨cacheInv_append compile size s.cache l.cur l.glb hI hm hn hcg,
               by simp [finishGet, hd, Res.isPanic], by simp [finishGet], by simp [finishGet],
-              by simp [finishGet], hgets _ rfl rfl, hl⟩
+              by simp [finishGet], hgets _ rfl rfl, hl, hr⟩
           · have hI' := hI
             obtain ⟨hl1, hns, _, hh, _⟩ := hI
             have hh' : s.cache.h < s.cache.l.length := by omega
@@ -499,9 +509,9 @@ theorem sys_step_inv (compile : Nat → Option Nat) (build : Nat → Nat) (size 
             rw [slow_evict s l hd hp hm hn hh' hn0]
             exact ⟨cacheInv_evict compile size s.cache l.cur l.glb hI' hm hn hh' hcg,
               by simp [finishGet, hd, Res.isPanic], by simp [finishGet], by simp [finishGet],
-              by simp [finishGet], hgets _ rfl rfl, hl⟩
+              by simp [finishGet], hgets _ rfl rfl, hl, hr⟩
       · rw [slow_noop s l hp ha he]
-        exact ⟨hI, hd, ha, he, hc, hg, hl⟩
+        exact ⟨hI, hd, ha, he, hc, hg, hl, hr⟩
 
 /-! ### frame: which shared fields a step can touch -/
 
@@ -520,6 +530,12 @@ theorem frame_atomicSeq (fs : List St) (h : ∀ f ∈ fs, FrameStep f) : FrameSt
 
 theorem frame_tblSnap : FrameStep tblSnap := by
   intro s l; cases hd : l.dead <;> simp [tblSnap, alive, hd]
+
+theorem frame_rndPick (N : Nat) : FrameStep (rndPick N) := by
+  intro s l
+  by_cases hN : N = 0
+  · cases hd : l.dead <;> simp [rndPick, alive, hd, hN, Local.die]
+  · cases hd : l.dead <;> simp [rndPick, alive, hd, hN]
 
 theorem frame_rdPure (build : Nat → Nat) (r : Nat) : FrameStep (rdPure build r) := by
   intro s l; cases hd : l.dead <;> simp [rdPure, alive, hd]
@@ -591,6 +607,7 @@ theorem lookupStep_frame (compile : Nat → Option Nat) (build : Nat → Nat) (f
   | comp => exact .inl (frame_gCompile compile)
   | slow => exact .inl frame_gSlowLocked
   | pick N hN => exact .inr ⟨N, hN, rfl⟩
+  | rnd N _ => exact .inl (frame_rndPick N)
   | redirect r => exact .inl (frame_rdPure build r)
 
 /-! ### round-robin invariant -/
@@ -705,13 +722,17 @@ theorem lookupRepaired_steps (compile : Nat → Option Nat) (build : Nat → Nat
   · cases hr : q.ring with
     | none => simp [hr] at hf
     | some N =>
-      simp only [hr, pickRepaired, List.mem_cons, List.mem_nil_iff, or_false] at hf
-      subst hf
       have : 0 < N := by
         cases N with
         | zero => exact absurd hr hq
         | succ n => omega
-      exact .pick N this
+      by_cases hrn : q.rnd = true
+      · simp only [hr, hrn, ↓reduceIte, List.mem_cons, List.mem_nil_iff, or_false] at hf
+        subst hf
+        exact .rnd N this
+      · simp [hr, hrn, pickRepaired] at hf
+        subst hf
+        exact .pick N this
   · by_cases hrd : q.redirect = true
     · simp only [hrd, ↓reduceIte, redirectRepaired, List.mem_cons, List.mem_nil_iff, or_false] at hf
       subst hf; exact .redirect q.id
